@@ -1,5 +1,152 @@
-(* C09 - property theorems only *)
-From VT Require Import Check.C09Check.
-Theorem C09_placeholder : forall k : ccase, c09_eval k = c09_eval k.
-Proof. reflexivity. Qed.
-Print Assumptions C09_placeholder.
+(* C09 - property theorems only; proofs live in Client/ClientLemmas.v, Client/ClientProofs.v,
+   Client/CheckProofs.v *)
+From VT Require Import Client.ClientLemmas Client.CliCheck Client.ClientProofs Client.Witness.
+From VT Require Import Check.C09Check Client.CheckProofs Client.HistoryProofs.
+Open Scope N_scope.
+
+(* ack-id invariant: after every history (any length, any configuration) and in every intermediate
+   state, every namespace's outstanding ids are distinct numbers in [1, next id of the generator) *)
+Theorem C09_ack_id_invariant : forall c ops,
+  cb_inv (final c ops) /\ Forall (fun se => cb_inv (fst se)) (snd (run c cli_init ops)).
+Proof. exact ack_id_invariant. Qed.
+Print Assumptions C09_ack_id_invariant.
+
+(* unique: the id given to a callback is positive, was not outstanding in its namespace, now maps
+   to exactly that callback, and no other (namespace, id) changed *)
+Theorem C09_unique : forall s ns cb,
+  cb_inv s ->
+  let id := c_next (slot_of s ns) in
+  let s' := st (generate_ack_id ns cb) s in
+  rs (generate_ack_id ns cb) s = Ok id /\ 1 <= id /\
+  outstanding (callbacks s) ns (Some (Z.of_N id)) = None /\
+  outstanding (callbacks s') ns (Some (Z.of_N id)) = Some cb /\
+  (forall ns' i, (ns', i) <> (ns, Z.of_N id) ->
+                 outstanding (callbacks s') ns' (Some i) = outstanding (callbacks s) ns' (Some i)).
+Proof. exact unique_id. Qed.
+Print Assumptions C09_unique.
+
+(* ... and that id is the one the EVENT of emit(callback=...) / call() carries *)
+Theorem C09_unique_emit : forall ev data pns cb s l,
+  cb_inv s ->
+  ahas str_eqb (namespaces s) (ns_or_default pns) = true ->
+  let ns := ns_or_default pns in
+  let id := c_next (slot_of s ns) in
+  pieces EVENT (PList (PStr ev :: emit_args data)) ns (Some (Z.of_N id)) = Ok l ->
+  api_emit ev data pns (Some cb) s = (st (generate_ack_id ns cb) s, if sendable s then map Sent l else [], Ok (Some id)) /\
+  outstanding (callbacks s) ns (Some (Z.of_N id)) = None /\
+  outstanding (callbacks (st (generate_ack_id ns cb) s)) ns (Some (Z.of_N id)) = Some cb.
+Proof. exact unique_emit. Qed.
+Print Assumptions C09_unique_emit.
+
+(* at most once: the ACK that finds a callback removes it; the same ACK again (any payload) does
+   nothing; no other (namespace, id) is touched *)
+Theorem C09_at_most_once : forall c s pns i data cb,
+  cb_inv s ->
+  outstanding (callbacks s) (ns_or_default pns) (Some i) = Some cb ->
+  let s' := st (handle_ack c pns (Some i) data) s in
+  outstanding (callbacks s') (ns_or_default pns) (Some i) = None /\
+  cb_inv s' /\
+  (forall data', handle_ack c pns (Some i) data' s' = (s', [], Ok tt)) /\
+  (forall ns' j, (ns', j) <> (ns_or_default pns, i) ->
+                 outstanding (callbacks s') ns' (Some j) = outstanding (callbacks s) ns' (Some j)).
+Proof. exact at_most_once. Qed.
+Print Assumptions C09_at_most_once.
+
+(* at most once, over histories of any length: if the application hands pairwise distinct callback
+   objects to emit / send, no callback is invoked twice, whatever the server sends; and only
+   callbacks that were handed to an emit / send of the history are ever invoked *)
+Theorem C09_at_most_once_history : forall c ops,
+  NoDup (flat_map op_refs ops) -> NoDup (called (history_effects c cli_init ops)).
+Proof. exact at_most_once_history. Qed.
+Print Assumptions C09_at_most_once_history.
+Theorem C09_only_registered_callbacks : forall c ops n,
+  In n (called (history_effects c cli_init ops)) -> In n (flat_map op_refs ops).
+Proof. exact called_were_registered. Qed.
+Print Assumptions C09_only_registered_callbacks.
+
+(* unknown_ignored: an ACK whose (namespace, id) is not outstanding - unknown, repeated, id 0
+   (outstanding _ _ (Some 0) = None by computation), no id, or outstanding only on another
+   namespace - invokes nothing and leaves the whole state unchanged *)
+Theorem C09_unknown_ignored : forall c s pns id data,
+  outstanding (callbacks s) (ns_or_default pns) id = None ->
+  handle_ack c pns id data s = (s, [], Ok tt).
+Proof. exact unknown_ignored. Qed.
+Print Assumptions C09_unknown_ignored.
+Theorem C09_id_zero_not_outstanding : forall cbs ns, outstanding cbs ns (Some 0%Z) = None.
+Proof. exact id_zero_not_outstanding. Qed.
+Print Assumptions C09_id_zero_not_outstanding.
+
+(* right namespace and id: a callback is invoked by an ACK only if it is the one outstanding under
+   exactly the ACK's namespace and id, with the acknowledged arguments, and it is the only effect *)
+Theorem C09_right_namespace : forall c s pns id data cb args,
+  In (CbCall cb args) (ef (handle_ack c pns id data) s) ->
+  outstanding (callbacks s) (ns_or_default pns) id = Some (CbUser cb) /\ star_args data = Ok args /\
+  ef (handle_ack c pns id data) s = [CbCall cb args].
+Proof. exact right_namespace. Qed.
+Print Assumptions C09_right_namespace.
+
+(* event: for every state and EVENT the responsible handler runs exactly once with the event's
+   arguments and - iff an id is present - exactly one ACK (that id, that namespace, pack(return
+   value)) is sent; the state is unchanged *)
+Theorem C09_event : forall c s pns id data ev args h a v fr,
+  split_event data = Ok (PStr ev, args) ->
+  responsible c (PStr ev) (ns_or_default pns) args = Some (h, a) ->
+  arity_fits c h (List.length a) = true -> returns c h = Some v ->
+  ack_effects s (ns_or_default pns) id v = Ok fr ->
+  handle_event c pns id data s = (s, Call h a :: fr, Ok tt).
+Proof. exact event_handled. Qed.
+Print Assumptions C09_event.
+(* nobody responsible: nothing is invoked; an id is still acknowledged, with no arguments *)
+Theorem C09_event_unhandled : forall c s pns id data ev args fr,
+  split_event data = Ok (PStr ev, args) ->
+  responsible c (PStr ev) (ns_or_default pns) args = None ->
+  ack_effects s (ns_or_default pns) id PNone = Ok fr ->
+  handle_event c pns id data s = (s, fr, Ok tt).
+Proof. exact event_unhandled. Qed.
+Print Assumptions C09_event_unhandled.
+Theorem C09_pack_shapes : pack PNone = [] /\ (forall l, pack (PTuple l) = l) /\
+                          (forall v, v <> PNone -> (forall l, v <> PTuple l) -> pack v = [v]).
+Proof. exact pack_shapes. Qed.
+Print Assumptions C09_pack_shapes.
+
+(* call(): the arguments acknowledged for the id just used come back as None / the value / the
+   tuple; the callback entry is gone afterwards.  The premise on `decode` is the codec round trip
+   (C01) for the frame the server answers with. *)
+Theorem C09_call_result : forall c s ev data pns r tbl fr p enc pns',
+  cb_inv s ->
+  ahas str_eqb (namespaces s) (ns_or_default pns) = true ->
+  sendable s = true -> binpkt s = None ->
+  let ns := ns_or_default pns in
+  let id := c_next (slot_of s ns) in
+  pieces EVENT (PList (PStr ev :: emit_args data)) ns (Some (Z.of_N id)) = Ok fr ->
+  ctor true ACK (PList r) (Some ns) (Some (Z.of_N id)) None = Ok p -> encode p = Ok enc ->
+  decode (table_loads tbl) (PStr (fst enc)) = Ok (mkR (mkPacket (PInt ACK) pns' (Some (Z.of_N id)) (PList r)) 0 []) ->
+  ns_or_default pns' = ns ->
+  rs (api_call c ev data pns (Some r) tbl) s = Ok (shape_result r) /\
+  filter observable (ef (api_call c ev data pns (Some r) tbl) s) = map Sent fr /\
+  outstanding (callbacks (st (api_call c ev data pns (Some r) tbl) s)) ns (Some (Z.of_N id)) = None.
+Proof. exact call_result. Qed.
+Print Assumptions C09_call_result.
+Theorem C09_call_timeout : forall c s ev data pns tbl fr,
+  ahas str_eqb (namespaces s) (ns_or_default pns) = true ->
+  let ns := ns_or_default pns in
+  let id := c_next (slot_of s ns) in
+  pieces EVENT (PList (PStr ev :: emit_args data)) ns (Some (Z.of_N id)) = Ok fr ->
+  api_call c ev data pns None tbl s =
+  (st (generate_ack_id ns CbInt) s, if sendable s then map Sent fr else [], Err TimeoutError).
+Proof. exact call_timeout. Qed.
+Print Assumptions C09_call_timeout.
+Theorem C09_call_shapes :
+  shape_result [] = PNone /\ (forall x, shape_result [x] = x) /\
+  (forall x y l, shape_result (x :: y :: l) = PTuple (x :: y :: l)).
+Proof. exact shape_result_shapes. Qed.
+Print Assumptions C09_call_shapes.
+
+(* the correspondence test accepts the model's own run on every history, and the C09 checker
+   accepts the model's run of the clean witness history *)
+Theorem C09_corr_accepts_model : forall c ops, corr_ok (model_case c ops) = true.
+Proof. exact corr_model. Qed.
+Print Assumptions C09_corr_accepts_model.
+Theorem C09_checker_accepts_clean : c09_code (model_case cfg_w witness_clean) = 0%nat.
+Proof. exact c09_accepts_clean. Qed.
+Print Assumptions C09_checker_accepts_clean.
